@@ -2,6 +2,7 @@ package main
 
 import (
 	"fmt"
+	"sort"
 	"go/token"
 	"go/types"
 
@@ -950,7 +951,38 @@ func ruleShutdownListeners(w *World, r *Report, pfx string) {
 	unwrap := w.Func("mpb.unwrap")
 	// find the function (closure or the loop itself) that calls OnShutdown in a go closure
 	var notifier *ssa.Function
-	for _, f := range append([]*ssa.Function{loop}, anonFuncsOf(loop)...) {
+	// functions of the module reachable from the bar loop, including the goroutines it spawns
+	reach := w.reachNoGo([]*ssa.Function{loop})
+	for changed := true; changed; {
+		changed = false
+		for f := range reach {
+			if !w.modSet[f] {
+				continue
+			}
+			for _, b := range f.Blocks {
+				for _, in := range b.Instrs {
+					if g, ok := in.(*ssa.Go); ok {
+						for _, t := range w.goTargets(g) {
+							if !reach[t] && w.modSet[t] {
+								for x := range w.reachNoGo([]*ssa.Function{t}) {
+									reach[x] = true
+								}
+								changed = true
+							}
+						}
+					}
+				}
+			}
+		}
+	}
+	var cands []*ssa.Function
+	for f := range reach {
+		if w.modSet[f] && f.Pkg == w.Mpb {
+			cands = append(cands, f)
+		}
+	}
+	sort.Slice(cands, func(i, j int) bool { return fnShort(cands[i]) < fnShort(cands[j]) })
+	for _, f := range cands {
 		for _, b := range f.Blocks {
 			for _, in := range b.Instrs {
 				if c, ok := in.(*ssa.Call); ok && c.Call.IsInvoke() && c.Call.Method.Name() == "OnShutdown" {
@@ -984,9 +1016,17 @@ func ruleShutdownListeners(w *World, r *Report, pfx string) {
 	})
 	r.Check(bad == "", rule, "notifying goroutine", w.pos(notifier.Pos()), "OnShutdown once, then Done", bad)
 	// the walker (parent of the notifier): range over the group; per element: unwrap -> ShutdownListener assertion -> Add(1) -> go
-	walker := notifier.Parent()
+	// the walker: the function that spawns the notifier
+	var walker *ssa.Function
+	for _, g := range w.Roles().GoSites {
+		for _, t := range w.goTargets(g) {
+			if t == notifier {
+				walker = g.Parent()
+			}
+		}
+	}
 	if walker == nil {
-		r.Undecided(rule, "listener walk", w.pos(loop.Pos()), "unexpected shape")
+		r.Violated(rule, "listener walk", w.pos(notifier.Pos()), "the notification is not made in its own goroutine (a slow listener would block the bar's exit)")
 		return
 	}
 	bad = ""
@@ -1049,10 +1089,12 @@ func ruleShutdownListeners(w *World, r *Report, pfx string) {
 		for _, ev := range p.Events {
 			if call, ok := ev.In.(*ssa.Call); ok && call.Call.StaticCallee() == walker {
 				c++
-				if ld, ok := call.Call.Args[0].(*ssa.UnOp); ok {
-					if ia, ok := ld.X.(*ssa.IndexAddr); ok {
-						if k, ok := constInt(ia.Index); ok {
-							idx[k] = true
+				for _, a := range call.Call.Args {
+					if ld, ok := a.(*ssa.UnOp); ok {
+						if ia, ok := ld.X.(*ssa.IndexAddr); ok {
+							if k, ok := constInt(ia.Index); ok {
+								idx[k] = true
+							}
 						}
 					}
 				}
